@@ -67,7 +67,7 @@ class Ctx:
     # ------------------------------------------------------------------ infrastructure
     def _repo_status(self):
         try:
-            return subprocess.run(["git", "-C", REPO, "status", "--porcelain"], capture_output=True, text=True).stdout
+            return subprocess.run(["git", "-C", REPO, "status", "--porcelain"], capture_output=True, text=True, errors="replace").stdout
         except Exception:
             return ""
 
@@ -94,10 +94,10 @@ class Ctx:
             shutil.copy(os.path.join(VERIF, "harness", "go.sum"), os.path.join(self.scratch, "go.alt.sum"))
             cmd += ["-modfile", modf]
         cmd += ["-o", out, "./cmd/fv"]
-        p = subprocess.run(cmd, cwd=os.path.join(VERIF, "harness"), env=self.goenv(), capture_output=True, text=True)
+        p = subprocess.run(cmd, cwd=os.path.join(VERIF, "harness"), env=self.goenv(), capture_output=True, text=True, errors="replace")
         if p.returncode != 0:
             raise Broken("go build failed:\n" + p.stdout + p.stderr)
-        c = subprocess.run([out, "canary"], capture_output=True, text=True)
+        c = subprocess.run([out, "canary"], capture_output=True, text=True, errors="replace")
         if c.returncode != 0:
             raise Broken("hook canary failed: " + c.stdout + c.stderr)
         setattr(self, attr, out)
@@ -143,7 +143,7 @@ class Ctx:
         env = dict(os.environ)
         env.update(env_extra or {})
         try:
-            p = subprocess.run(cmd, cwd=d, capture_output=True, text=True, timeout=timeout, env=env)
+            p = subprocess.run(cmd, cwd=d, capture_output=True, text=True, errors="replace", timeout=timeout, env=env)
         except subprocess.TimeoutExpired:
             raise Broken("TLC timeout on %s after %ds" % (name, timeout))
         out = p.stdout + p.stderr
@@ -171,7 +171,7 @@ class Ctx:
         t = time.time()
         cmd = [fv, "replay", family, dumpf] + (["-workers", str(workers)] if workers else [])
         try:
-            p = subprocess.run(cmd, capture_output=True, text=True, timeout=timeout)
+            p = subprocess.run(cmd, capture_output=True, text=True, errors="replace", timeout=timeout)
         except subprocess.TimeoutExpired:
             raise Broken("replay timeout %s" % name)
         self._race_report(name, family, cmd, p, race)
@@ -180,7 +180,7 @@ class Ctx:
             mark = os.path.join(self.scratch, name + ".mark")
             env = dict(os.environ, VERIF_MARK=mark)
             try:
-                p2 = subprocess.run(cmd, capture_output=True, text=True, timeout=timeout, env=env)
+                p2 = subprocess.run(cmd, capture_output=True, text=True, errors="replace", timeout=timeout, env=env)
             except subprocess.TimeoutExpired:
                 raise Broken("replay timeout (looking for the crashing case) %s" % name)
             if not go_fatal(p2) or not os.path.exists(mark):
@@ -234,7 +234,7 @@ class Ctx:
         cmd = [fv, "record", family, "-out", outp, "-seed", str(self.seed)] + [str(a) for a in args]
         t = time.time()
         try:
-            p = subprocess.run(cmd, capture_output=True, text=True, timeout=timeout, env=env)
+            p = subprocess.run(cmd, capture_output=True, text=True, errors="replace", timeout=timeout, env=env)
         except subprocess.TimeoutExpired:
             if self.failures:
                 # an earlier stage already holds failures of the real code (typically a hang): decide on those
@@ -287,7 +287,7 @@ class Ctx:
             open(os.path.join(d, "trace.ndjson"), "w").write("\n".join(chunk) + "\n")
             cmd = JAVA + ["-Xmx" + heap, "-Xss512m", "-cp", CP, "tlc2.TLC", "-workers", "1",
                           "-metadir", os.path.join(d, "meta"), "-config", cfg, mod]
-            procs.append((si, len(chunk), d, subprocess.Popen(cmd, cwd=d, stdout=subprocess.PIPE, stderr=subprocess.STDOUT, text=True)))
+            procs.append((si, len(chunk), d, subprocess.Popen(cmd, cwd=d, stdout=subprocess.PIPE, stderr=subprocess.STDOUT, text=True, errors="replace")))
         bad = []
         pinned = 0
         for si, cnt, d, p in procs:
@@ -358,7 +358,7 @@ class Ctx:
             cmd[0] = fv
             for _ in range(3):          # a race needs the right timing: three attempts
                 try:
-                    p = subprocess.run(cmd, capture_output=True, text=True, timeout=1800)
+                    p = subprocess.run(cmd, capture_output=True, text=True, errors="replace", timeout=1800)
                 except subprocess.TimeoutExpired:
                     return False
                 if "WARNING: DATA RACE" in p.stderr:
@@ -368,7 +368,7 @@ class Ctx:
             d = json.loads(f["payload"])
             d["cmd"][0] = fv
             try:
-                p = subprocess.run(d["cmd"], capture_output=True, text=True, timeout=1800, env=dict(os.environ, **d["env"]))
+                p = subprocess.run(d["cmd"], capture_output=True, text=True, errors="replace", timeout=1800, env=dict(os.environ, **d["env"]))
             except subprocess.TimeoutExpired:
                 return False
             return go_fatal(p) or p.returncode == 5
@@ -376,7 +376,7 @@ class Ctx:
             sf = os.path.join(self.scratch, "confirm.state")
             open(sf, "w").write(f["payload"])
             try:
-                p = subprocess.run([fv, "one", f["family"], sf], capture_output=True, text=True, timeout=120)
+                p = subprocess.run([fv, "one", f["family"], sf], capture_output=True, text=True, errors="replace", timeout=120)
             except subprocess.TimeoutExpired:
                 return True   # reproducible hang
             if p.returncode == 1 or go_fatal(p):
@@ -386,7 +386,7 @@ class Ctx:
                     # not a hang on its own: a hang that needs what ran before it recurs when the cases run in order
                     cmd = [fv] + f["cmd"][1:4] + ["-workers", "1"]
                     try:
-                        p = subprocess.run(cmd, capture_output=True, text=True, timeout=3600)
+                        p = subprocess.run(cmd, capture_output=True, text=True, errors="replace", timeout=3600)
                     except subprocess.TimeoutExpired:
                         return False
                     return p.returncode == 3
@@ -396,7 +396,7 @@ class Ctx:
             ef = os.path.join(self.scratch, "confirm.event.json")
             open(ef, "w").write(f["payload"] + "\n")
             outp = os.path.join(self.scratch, "confirm.ndjson")
-            p = subprocess.run([fv, "record", f["family"], "-out", outp, "-one", ef], capture_output=True, text=True, timeout=300)
+            p = subprocess.run([fv, "record", f["family"], "-out", outp, "-one", ef], capture_output=True, text=True, errors="replace", timeout=300)
             if p.returncode != 0:
                 raise Broken("confirmation recorder failed: " + p.stdout + p.stderr)
             saved = (self.failures, self.validated, self.samples, self.stages)
@@ -419,7 +419,7 @@ class Ctx:
                 seen = set()
                 for _ in range(2):            # twice: the failure must recur in both ordered runs
                     try:
-                        p = subprocess.run(cmd, capture_output=True, text=True, timeout=3600)
+                        p = subprocess.run(cmd, capture_output=True, text=True, errors="replace", timeout=3600)
                         rep = json.loads(p.stdout.strip().splitlines()[-1])
                     except Exception:
                         rep = {"mismatches": []}
@@ -434,7 +434,7 @@ class Ctx:
             if key not in self.context_cache:
                 outp = os.path.join(self.scratch, "context-%d.ndjson" % len(self.context_cache))
                 cmd = [fv] + [outp if (i > 0 and rc["cmd"][i - 1] == "-out") else a for i, a in enumerate(rc["cmd"])][1:]
-                p = subprocess.run(cmd, capture_output=True, text=True, timeout=3600, env=dict(os.environ, **rc["env"]))
+                p = subprocess.run(cmd, capture_output=True, text=True, errors="replace", timeout=3600, env=dict(os.environ, **rc["env"]))
                 bad_inputs = set()
                 if p.returncode == 0:
                     saved = (self.failures, self.validated, self.samples, self.stages, self.nontrivial)
